@@ -167,7 +167,7 @@ def _resolution() -> List[str]:
         return []  # the table describes the reference tree only
     want = {
         ("Discretizer", "transform"): "BaseDiscretizer", ("Discretizer", "_remove_feature"): "Discretizer",
-        ("QualitativeDiscretizer", "_prepare_data"): "QualitativeDiscretizer", ("ContinuousDiscretizer", "_prepare_data"): "BaseDiscretizer",
+        ("QualitativeDiscretizer", "_prepare_data"): "QualitativeDiscretizer", ("ContinuousDiscretizer", "_prepare_data"): "ContinuousDiscretizer", ("OrdinalDiscretizer", "_check_new_values"): "BaseDiscretizer",
         ("BinaryCarver", "_remove_feature"): "BaseCarver", ("BinaryCarver", "to_json"): "BaseCarver", ("MulticlassCarver", "fit"): "MulticlassCarver",
         ("ContinuousCarver", "_grouper"): "ContinuousCarver", ("ChainedDiscretizer", "_remove_feature"): "BaseDiscretizer",
         ("StringDiscretizer", "summary"): "BaseDiscretizer", ("BinaryCarver", "__prepare_data"): "BaseDiscretizer",
